@@ -1127,6 +1127,7 @@ func (b *BaseStore) recalculateReplicationMax(max int) {
 		max = replMax
 	}
 
+	verifhook.At("status.recalc", b, "max", max)
 	b.ReplicationStatus().SetMax(max)
 }
 
